@@ -2,6 +2,8 @@
 driver, and the identity-aware canonical form used to compare object graphs."""
 from __future__ import annotations
 
+import json
+
 import collections
 import enum
 import functools
@@ -434,6 +436,76 @@ class Encoder:
     self.ids[id(x)] = idx
     self.keep.append(x)
     return {'r': idx}
+
+
+KIND_NAME = {'ddict': 'defaultdict'}
+
+
+def unique_fn_names(enc, req):
+  """Names the callable of every encoded Buildable uniquely per callable *object* (two distinct
+  callables may share a __qualname__) and rewrites the request; returns the naming function."""
+  names, used = {}, {}
+
+  def name_of(fn):
+    if id(fn) in names:
+      return names[id(fn)][1]
+    base = callable_name(fn)
+    n = used.get(base, 0)
+    used[base] = n + 1
+    nm = base if n == 0 else f'{base}#{n}'
+    names[id(fn)] = (fn, nm)
+    return nm
+  for obj, x in zip(req['objs'], enc.keep):
+    if obj['k'] == 'cfg':
+      obj['fn'] = name_of(x.__fn_or_cls__)
+  return name_of
+
+
+def shape_val(x, enc, new_tokens=()):
+  """Mirror of Driver.Graph.shapeVal: containers expanded, Buildables by encoded identity."""
+  for pred, tok in new_tokens:
+    if pred(x):
+      return {'a': tok}
+  if is_atom(x):
+    return {'a': atom_token(x)}
+  kind = kind_of(x)
+  if kind == 'cfg':
+    return {'r': enc.ids.get(id(x))}
+  if kind == 'opaque':
+    return {'o': opaque_token(x)}
+  return {'c': KIND_NAME.get(kind, kind),
+          'ch': [[pe, shape_val(v, enc, new_tokens)] for pe, v in enc.children(x, kind)]}
+
+
+def cfg_shapes(nodes, enc, name_of, new_tokens=()):
+  """Mirror of Driver.Graph.cfgShapes for the given Buildables (sorted by encoded identity)."""
+  out = []
+  for n in sorted(nodes, key=lambda n: enc.ids[id(n)]):
+    tags = sorted(([k, sorted(targets.tag_no(t) for t in ts)]
+                   for k, ts in n.__argument_tags__.items() if ts), key=repr)
+    out.append([enc.ids[id(n)], name_of(n.__fn_or_cls__),
+                [[pe, shape_val(v, enc, new_tokens)] for pe, v in enc.children(n, 'cfg')], tags])
+  return out
+
+
+def norm_shapes(shapes):
+  """Argument order of a Buildable is not part of the compared state: sort by key."""
+  if shapes is None:
+    return None
+  return [[e[0], e[1], sorted(e[2], key=lambda c: json.dumps(c[0])), e[3]] for e in shapes]
+
+
+def matcher_request(enc, target, match_subclasses, btype, name_of):
+  universe = [x.__fn_or_cls__ for x in enc.keep if kind_of(x) == 'cfg'] + list(targets.CLASSES) + [target]
+  classes = {}
+  for c in universe:
+    if isinstance(c, type):
+      classes[name_of(c)] = [name_of(b) for b in c.__mro__[1:] if b is not object]
+  bks = {}
+  for t in [type(x) for x in enc.keep if kind_of(x) == 'cfg'] + [btype]:
+    bks[t.__name__] = [b.__name__ for b in t.__mro__[1:]]
+  return {'target': None if target is None else name_of(target), 'match_sub': bool(match_subclasses),
+          'btype': btype.__name__, 'classes': sorted(classes.items()), 'bk_bases': sorted(bks.items())}
 
 
 def opaque_token(x):
